@@ -199,6 +199,33 @@ def gen_case(rng, malformed=False):
     return c
 
 
+def gen_collinear_case(rng):
+    """plain reading arrays that are EXACTLY collinear (small integers / dyadic numbers, slope and
+    offset exact): the inferred covariance sits on the Cauchy-Schwarz bound, the correlation is
+    exactly +-1 — the clamps of set_covariance / set_correlation and the quotient of the parent
+    class must work together on every rounding pattern of std_x * std_y (a few percent of such
+    pairs round unfavourably)"""
+    n = rng.choice([2, 2, 2, 3, 3, 4, 5, 8])
+    while True:
+        if rng.random() < 0.6:
+            xs = [float(rng.randint(-20, 20)) for _ in range(n)]
+        else:
+            xs = [rng.choice([0.0, 16.0, 1024.0]) + H.dyadic(rng) for _ in range(n)]
+        if len(set(xs)) >= 2:
+            break
+    kk = rng.choice([3.0, -3.0, 5.0, 7.0, -1.5, 1.25, 6.0, -7.0, 1.5, 2.0, 0.25, 1.125, 0.75, -0.75])
+    cc = rng.choice([0.0, 1.0, -3.5, 100.0, float(rng.randint(-5, 5))])
+    ys = [kk * x + cc for x in xs]
+    assert all(F(y) == F(kk) * F(x) + F(cc) for x, y in zip(xs, ys))
+    return {"xs": [bits(x) for x in xs], "nd": rng.random() < 0.4, "es": None, "common": None,
+            "sels": [rng.choice(SELS) for _ in range(rng.choice([0, 0, 1, 2]))],
+            "k": bits(rng.choice([2.0, -3.0, 0.5])), "c": bits(rng.choice([0.0, 1.0])),
+            "pair": {"ys": [bits(y) for y in ys], "mode": "collinear" if kk > 0 else "anti",
+                     "sign": 1 if kk > 0 else -1, "via": "cov" if rng.random() < 0.85 else "corr",
+                     "form": rng.choice(["fn", "meth"])},
+            "bad": None, "special": "collinear-targeted"}
+
+
 def describe(c):
     xs = [unbits(x) for x in c["xs"]]
     d = "Measurement({}{})".format(("np.array(%r)" if c["nd"] else "%r") % (xs,),
@@ -484,7 +511,8 @@ def run_cases(ctx, cases, ref=False):
 
 
 def chunk(sub, n):
-    cases = [gen_case(sub.rng, malformed=(i % 10 == 9)) for i in range(n)]
+    cases = [gen_collinear_case(sub.rng) if i % 4 == 1 else gen_case(sub.rng, malformed=(i % 10 == 9))
+             for i in range(n)]
     return run_cases(sub, cases)
 
 
@@ -600,7 +628,7 @@ def search_chunk(sub, n):
     import qexpy as q
     res = {"evaluations": n, "failures": []}
     for i in range(n):
-        c = gen_case(sub.rng, malformed=(i % 10 == 9))
+        c = gen_collinear_case(sub.rng) if i % 4 == 1 else gen_case(sub.rng, malformed=(i % 10 == 9))
         res["failures"] += exact_check(c, observe(q, c))
     H.reset(q)
     return res
